@@ -10,17 +10,40 @@ from ..gen import netgen, opfgen
 from ..oracles import balance
 
 PROPERTY = "C16"
-READY = False
-NOT_READY_REASON = "under construction"
-TECHNIQUE = ("runtime monitoring: declared constraints evaluated on the result tables of every converged runopp/rundcopp of "
-             "feasible-by-construction problems; the dispatch is re-executed as a power flow on a fresh copy")
+READY = True
+TECHNIQUE = ("runtime monitoring: declared constraints and the nodal power balance evaluated on the result tables of every "
+             "converged runopp/rundcopp of feasible-by-construction problems; the dispatch is re-executed as a power flow on a "
+             "fresh copy")
 LEVEL = "exploration"
 CASES = {"quick": 500, "thorough": 12000}
 BUDGET = {"quick": 60, "thorough": 1200}
 CASE_TIMEOUT = 90
-FLOORS = {"quick": {"nontrivial": 150, "max_skip_frac": 0.5}, "thorough": {"nontrivial": 4000, "max_skip_frac": 0.5}}
-RULE = ""
-ASSUMPTIONS = []
+FLOORS = {"quick": {"nontrivial": 180, "max_skip_frac": 0.45,
+                    "tags": {"ac": 120, "dc": 80, "binding_branch_limit": 50, "binding_voltage_limit": 25, "controllable:gen": 120,
+                             "controllable:sgen": 80, "controllable:load": 120, "controllable:storage": 60, "fixed:gen": 80,
+                             "fixed:load": 120, "tight_convergence": 180, "reproduced_pf": 180, "dcline": 12},
+                    "extras": {"constraints": 15000}},
+          "thorough": {"nontrivial": 4500, "max_skip_frac": 0.45,
+                       "tags": {"ac": 3000, "dc": 2000, "binding_branch_limit": 1200, "binding_voltage_limit": 600,
+                                "controllable:storage": 1500, "fixed:gen": 2000, "tight_convergence": 4500, "reproduced_pf": 4500,
+                                "dcline": 300},
+                       "extras": {"constraints": 350000}}}
+RULE = ("one case = one seeded OPF problem (pv/gen/opfgen.py): bundled case5/9/14/30/ieee30 or a small generated network, extended by "
+        "sgens, storages, loads and sometimes a DC line; random subset controllable; all limits (bus voltage, branch loading, p/q "
+        "ranges, ext_grid) wrapped around a converged power flow, so the problem is feasible by construction; random poly/pwl costs; "
+        "runopp (65 %, init flat/pf) or rundcopp. Non-trivial = converged and judged; distinct = digest of input tables + options")
+ASSUMPTIONS = [
+    "a constraint counts as violated beyond 4 x OPF_VIOLATION (5e-6 p.u.) x (1 + max(|x|, |z|)): PIPS tests feasibility relative to "
+    "the largest variable / slack; with piecewise linear costs the cost variables (currency units) enter that norm, so such runs "
+    "are judged with a correspondingly wider tolerance (evidence counter solver_scale_log10)",
+    "loading limits: 1e-3 % + relative solver tolerance; non-controllable elements must keep p (x scaling), q and vm set-points",
+    "the nodal balance of the reported operating point is computed from the result tables only (pv/oracles/balance.py); the "
+    "power-flow re-execution is compared (vm 1e-5, va 1e-3 degree, slack and branch flows 2e-5 p.u. x n_bus) when the OPF stopped "
+    "with a balance mismatch <= 2e-5 p.u. (tight_convergence)",
+    "OPF non-convergence (documented weak spot of the PYPOWER solver, ~22 % of the cases) is skipped, bounded by max_skip_frac",
+    "DC lines are removed for rundcopp (never converges); trafo3w loading limits are generated but trafo3w branch flows are not "
+    "re-compared",
+]
 
 VIOL_PU = 5e-6          # OPF_VIOLATION: constraint violation tolerance of the solver in p.u.
 
@@ -202,8 +225,8 @@ def reproduce(net, work, dc, replace_dcline=False, f=1.):
         dv = np.abs(n2.res_bus.vm_pu.values - work.res_bus.vm_pu.values)[live]
         if not (dv.max() <= 1e-5 * f):
             out.append("power flow of the OPF dispatch gives other voltages: max |dvm| = %.3e p.u." % dv.max())
-    da = np.abs(n2.res_bus.va_degree.values - work.res_bus.va_degree.values)[live]
-    da = np.minimum(da, np.abs(da - 360.))
+    da = n2.res_bus.va_degree.values[live] - work.res_bus.va_degree.values[live]
+    da = np.abs((da + 180.) % 360. - 180.)          # angles are only defined modulo 360 degree
     if not (da.max() <= (1e-3 if not dc else 1e-5) * f):
         out.append("power flow of the OPF dispatch gives other angles: max |dva| = %.3e degree" % da.max())
     dp = np.abs(n2.res_ext_grid.p_mw.values - work.res_ext_grid.p_mw.values)
